@@ -107,6 +107,7 @@ assert aes_dec(bytes(range(16)), bytes.fromhex("69c4e0d86a7b0430d8cdb78070b4c55a
 assert cmac(bytes.fromhex("2b7e151628aed2a6abf7158809cf4f3c"), bytes.fromhex("6bc1bee22e409f96e93d7e117393172a")).hex().startswith("070a16b4")
 
 def _crypt(key, direction, addr, fcnt, data):
+    fcnt &= 0xFFFFFFFF
     out = bytearray()
     for i in range(0, len(data), 16):
         a = bytes([1, 0, 0, 0, 0, direction]) + addr.to_bytes(4, "little") + fcnt.to_bytes(4, "little") + bytes([0, i // 16 + 1])
@@ -121,7 +122,7 @@ def data_frame(mtype, addr, fctrl_flags, fcnt, fopts, port, payload, nwk, app, m
     if port is not None:
         key = nwk if port == 0 else app
         msg += bytes([port]) + _crypt(key, direction, addr, fcnt, payload)
-    n = fcnt if mic_fcnt is None else mic_fcnt
+    n = (fcnt if mic_fcnt is None else mic_fcnt) & 0xFFFFFFFF
     b0 = bytes([0x49, 0, 0, 0, 0, direction]) + addr.to_bytes(4, "little") + n.to_bytes(4, "little") + bytes([0, len(msg) & 0xFF])
     return msg + cmac(nwk, b0 + msg)[:4]
 
